@@ -592,7 +592,9 @@ MechNext(nd, st, pre, aid) ==
         MechDrive(mech, LC!OnTimeout(mech, st.tid), <<>>, QueriesOf(st, aid, "get_peers"))
     ELSE IF st.kind = "timer" /\ st.what = "LookupEndGame" /\ SubSeq(st.tid, 1, 10) = aid THEN
         LET want == IF lk.announce THEN Addrs(LC!Announces(mech)) ELSE <<>> IN
-        [mech |-> MechOff([mech EXCEPT !.n = @ + 1], "finished"), made |-> TRUE, bad |-> want # Dsts(QueriesOf(st, aid, "announce_peer"))]
+        \* ... fired by the end-game timer, 1.5 s after the end-game began
+        [mech |-> MechOff([mech EXCEPT !.n = @ + 1], "finished"), made |-> TRUE,
+         bad |-> want # Dsts(QueriesOf(st, aid, "announce_peer")) \/ lk.eg < 0 \/ now < lk.eg + 1500 \/ now > lk.eg + 1500 + SLACK]
     ELSE [mech |-> mech, made |-> FALSE, bad |-> FALSE]
 \* the searches a step can concern
 MechAids(nd, st) ==
